@@ -6,6 +6,7 @@ import (
 	"log/slog"
 	"math"
 	"math/big"
+	"sort"
 	"strings"
 
 	msm4msg "github.com/goblimey/go-ntrip/rtcm/type_msm4/message"
@@ -304,6 +305,95 @@ func execC08(c *child.Ctx, k cellCase, cj []byte) {
 	}
 }
 
+// multiCase is a message with several satellites and signals (full cell mask); every
+// cell is checked against the formulas when the message has been decoded and again
+// after the message has been displayed.
+type multiCase struct {
+	Type         int         `json:"type"`
+	Sats         []ref.Sat   `json:"sats"`
+	SigIDs       []uint      `json:"sig_ids"`
+	Cells        [][]ref.Sig `json:"cells"` // [satellite][signal]
+	AfterDisplay bool        `json:"checked_after_display,omitempty"`
+}
+
+func execC08Multi(c *child.Ctx, k multiCase) {
+	cj, _ := json.Marshal(k)
+	defer func() {
+		if r := recover(); r != nil {
+			c.Violate("panic", fmt.Sprintf("panic while evaluating the cells of a message: %v", r), cj)
+		}
+	}()
+	m := &ref.MSM{Type: k.Type, StationID: 2, Timestamp: 2000, CellsSent: -1}
+	for i := range k.Sats {
+		m.SatMask |= uint64(1) << uint(63-3*i-1)
+	}
+	for _, id := range k.SigIDs {
+		m.SigMask |= uint32(1) << (32 - id)
+	}
+	m.Sats = k.Sats
+	for i := range k.Sats {
+		for j := range k.SigIDs {
+			m.CellMask = append(m.CellMask, true)
+			m.Sigs = append(m.Sigs, k.Cells[i][j])
+		}
+	}
+	frame := ref.Frame(ref.EncodeMSM(m))
+	cons := ref.ConstellationOf(k.Type)
+	pass := func(check func(i, j int, kc cellCase, cj []byte)) {
+		for i := range k.Sats {
+			for j, id := range k.SigIDs {
+				kk := k
+				kc := cellCase{Type: k.Type, Sat: k.Sats[i], Sig: k.Cells[i][j], SigID: id}
+				cjj, _ := json.Marshal(kk)
+				check(i, j, kc, cjj)
+			}
+		}
+	}
+	_ = cons
+	if ref.IsMSM7(k.Type) {
+		dm, err := msm7msg.GetMessage(frame, slog.LevelInfo)
+		if err != nil || len(dm.Signals) != len(k.Sats) {
+			c.Count("decode_failures_left_to_C04", 1)
+			return
+		}
+		for _, row := range dm.Signals {
+			if len(row) != len(k.SigIDs) {
+				c.Count("decode_failures_left_to_C04", 1)
+				return
+			}
+		}
+		pass(func(i, j int, kc cellCase, cjj []byte) {
+			checkCell7(c, kc, &dm.Signals[i][j], dm.Signals[i][j].Wavelength, cjj)
+		})
+		_ = dm.String()
+		k.AfterDisplay = true
+		pass(func(i, j int, kc cellCase, cjj []byte) {
+			checkCell7(c, kc, &dm.Signals[i][j], dm.Signals[i][j].Wavelength, cjj)
+		})
+	} else {
+		dm, err := msm4msg.GetMessage(frame, slog.LevelInfo)
+		if err != nil || len(dm.Signals) != len(k.Sats) {
+			c.Count("decode_failures_left_to_C04", 1)
+			return
+		}
+		for _, row := range dm.Signals {
+			if len(row) != len(k.SigIDs) {
+				c.Count("decode_failures_left_to_C04", 1)
+				return
+			}
+		}
+		pass(func(i, j int, kc cellCase, cjj []byte) {
+			checkCell4(c, kc, &dm.Signals[i][j], dm.Signals[i][j].Wavelength, cjj)
+		})
+		_ = dm.String()
+		k.AfterDisplay = true
+		pass(func(i, j int, kc cellCase, cjj []byte) {
+			checkCell4(c, kc, &dm.Signals[i][j], dm.Signals[i][j].Wavelength, cjj)
+		})
+	}
+	c.Count("cells_rechecked_after_display", int64(len(k.Sats)*len(k.SigIDs)))
+}
+
 // equivalence: an MSM4 cell and the MSM7 cell encoding the same quantity agree.
 func execC08Equiv(c *child.Ctx, k cellCase, cj []byte) {
 	defer func() {
@@ -332,6 +422,15 @@ func execC08Equiv(c *child.Ctx, k cellCase, cj []byte) {
 }
 
 func monC08(c *child.Ctx, replay json.RawMessage) {
+	if replay != nil && hasKey(replay, "sats") {
+		var mk multiCase
+		json.Unmarshal(replay, &mk)
+		mk.AfterDisplay = false
+		c.Begin(replay)
+		execC08Multi(c, mk)
+		c.Eval(1, true)
+		return
+	}
 	if replay != nil {
 		var k cellCase
 		json.Unmarshal(replay, &k)
@@ -432,6 +531,37 @@ func monC08(c *child.Ctx, replay json.RawMessage) {
 		if c.WantSample() && nontriv && k.Sat.Whole != 255 && i > 10 {
 			c.Sample(k)
 		}
+	}
+	// whole messages: 2-5 satellites x 1-3 signals, some satellites with the invalid
+	// rough range; all cells checked after decoding and again after display
+	nm := c.Share(c.Pick(40000, 800000))
+	for i := 0; i < nm; i++ {
+		t := timed[i%len(timed)]
+		mc := multiCase{Type: t}
+		ns, ng := r.Range(2, 5), r.Range(1, 3)
+		seen := map[uint]bool{}
+		for len(mc.SigIDs) < ng {
+			id := mk(t).SigID
+			if !seen[id] {
+				seen[id] = true
+				mc.SigIDs = append(mc.SigIDs, id)
+			}
+		}
+		sort.Slice(mc.SigIDs, func(a, b int) bool { return mc.SigIDs[a] < mc.SigIDs[b] })
+		for si := 0; si < ns; si++ {
+			kc := mk(t)
+			mc.Sats = append(mc.Sats, kc.Sat)
+			var row []ref.Sig
+			for g := 0; g < ng; g++ {
+				row = append(row, mk(t).Sig)
+			}
+			mc.Cells = append(mc.Cells, row)
+		}
+		if i%64 == 0 {
+			c.BeginV(mc)
+		}
+		execC08Multi(c, mc)
+		c.EvalN(1)
 	}
 	// complete sweep of the whole-millisecond field with boundary fractions (direct construction)
 	if c.Batch == 0 {
